@@ -26,9 +26,16 @@ Record HG c (cur n : N) (carry : bytes) : Prop := mkHG {
 }.
 
 (* what a fragment does to the decoder, and where the ghost is afterwards *)
-Definition hdr_post (d0 : hstate) (n0 : N) (b0 : bytes) (fr : sframe) (c' : sconn) : Prop :=
-  exists fs n' carry', ref_run dec_field (eh_of fr) d0 n0 b0 fs (sc_dec c') n' carry' /\
+Definition hdr_post (c0 : sconn) (n0 : N) (b0 : bytes) (fr : sframe) (c' : sconn) : Prop :=
+  exists fs n' carry', ref_run dec_field (eh_of fr) (sc_dec c0) n0 b0 fs (sc_dec c') n' carry' /\
+    eff c0 c' /\
     (sc_sl_done c' = false -> HG c' (next_cur fr) n' carry').
+
+Lemma hdr_post_pre c1 c2 n0 b0 fr c' : eff c1 c2 -> sc_dec c2 = sc_dec c1 -> hdr_post c2 n0 b0 fr c' -> hdr_post c1 n0 b0 fr c'.
+Proof.
+  intros E D (fs & n' & carry' & R & E2 & G). exists fs, n', carry'. rewrite <- D.
+  split; [exact R|]. split; [eapply eff_trans; eassumption | exact G].
+Qed.
 
 Lemma P_weaken idp idp' s : P idp s -> st_headersFinished s = true -> P idp' s.
 Proof. unfold P. intros (P1 & P2 & P3 & P4 & P5) Hf. repeat split; try tauto. intro H. congruence. Qed.
@@ -84,7 +91,7 @@ Lemma discard_path idp c0 fr :
   ~ In (sf_sid fr) (map st_id (sc_strms c0)) -> sf_sid fr <= sc_highestID c0 -> sf_sid fr <> 0 ->
   sc_wl_dead c0 = false ->
   (gcount (sc_out (fst (discard_or_break (discard_header_block dec_field cfg c0 fr)))) <= gcount (sc_out c0))%nat ->
-  hdr_post (sc_dec c0) (if is_cont fr then sc_discardFields c0 else 0)
+  hdr_post c0 (if is_cont fr then sc_discardFields c0 else 0)
            ((if is_cont fr then sc_discardPrev c0 else []) ++ sf_payload fr) fr
            (fst (discard_or_break (discard_header_block dec_field cfg c0 fr))).
 Proof.
@@ -96,8 +103,9 @@ Proof.
     assert (D0 : dd c0 c1).
     { eapply dd_trans; [|exact D]. unfold is_cont. destruct (fkind_eqb _ _); [apply dd_refl | apply dd_upd_discard]. }
     pose proof (fatal_discard_or_break c0 c1 e' D0 F W). lia.
-  - cbn [discard_or_break cont fst]. exists fs, n', carry'. split.
+  - cbn [discard_or_break cont fst]. exists fs, n', carry'. split; [|split].
     + unfold is_cont. destruct (fkind_eqb (sf_kind fr) KCont); exact R.
+    + destruct (fkind_eqb (sf_kind fr) KCont); apply eff_quiet; reflexivity.
     + intros _. fold (eh_of fr).
       assert (E : upd_discard (upd_dec (if fkind_eqb (sf_kind fr) KCont then c0 else upd_discard c0 (sc_discardID c0) [] 0) d')
                     (if eh_of fr then 0 else sf_sid fr) carry' n' =
@@ -214,7 +222,7 @@ Lemma ftail_hdr c2 s fr wc :
   HInv (eq (sf_sid fr)) c2 -> strms_search (sc_strms c2) (sf_sid fr) = Some s ->
   sc_wl_dead c2 = false -> (wc = true -> sc_closing c2 = true) ->
   (gcount (sc_out (fst (ftail dec_field cfg c2 s fr wc))) <= gcount (sc_out c2))%nat ->
-  hdr_post (sc_dec c2) (hn0 s fr) (hb0 s fr) fr (fst (ftail dec_field cfg c2 s fr wc)).
+  hdr_post c2 (hn0 s fr) (hb0 s fr) fr (fst (ftail dec_field cfg c2 s fr wc)).
 Proof.
   intros HK Es H SS W WC G. unfold ftail in *.
   pose proof (handle_frame_hdr_spec _ dec_field cfg c2 s fr HK) as HS.
@@ -257,8 +265,9 @@ Proof.
       - intros _ CL. apply (handle_state_not_rst _ _ NR) in CL. cbn [s3 set_hdr st_state] in CL.
         destruct (rank_ok_closed _ _ _ Ps RO CL) as [Hs OK]. intros K _. apply (OK K Hs).
       - intros code Ec. discriminate Ec. }
-    exists fs, n', carry'. split.
+    exists fs, n', carry'. split; [|split].
     + rewrite (hmvs_dec _ _ _ _ M). rewrite EH. exact R.
+    + eapply eff_trans; [|eapply hmvs_eff; exact M]. apply eff_quiet; reflexivity.
     + intro Hd'. unfold next_cur. rewrite EH. split.
       * eapply hmvs_HInv; [exact M | exact HV | exact Hd'].
       * intros _. eapply hmvs_carry; [exact M | exact HV | exact Hd' | exact CV].
@@ -278,8 +287,9 @@ Proof.
       - exact WC.
       - intros _ _ _ Hf. discriminate Hf.
       - intros code Ec. apply validate_err in Ec. discriminate Ec. }
-    exists fs, n', []. split.
+    exists fs, n', []. split; [|split].
     + rewrite (hmvs_dec _ _ _ _ M). rewrite EH. exact R.
+    + eapply eff_trans; [|eapply hmvs_eff; exact M]. apply eff_quiet; reflexivity.
     + intro Hd'. unfold next_cur. rewrite EH. split; [|congruence].
       eapply hmvs_HInv; [exact M | exact HV | exact Hd'].
   - (* a stream error at a field: the stream is reset and closed, the rest of the block has been decoded *)
@@ -287,11 +297,18 @@ Proof.
     set (c3 := upd_discard (upd_dec c2 d') (if eh_of fr then 0 else st_id s) carry' n') in *.
     destruct (hfold_frame cfg _ _ _ HF) as (PV & _ & HFF). cbn [hh1 hd_headersFinished hd_prev] in HFF, PV.
     assert (R0 := rank_ok_unanswered _ _ _ Ps RO).
-    unfold ftail_rest. cbn [write_error].
+    assert (EF : eff c2 (fst (ftail_rest cfg c3 s3 (Some (EReset code)) fr wc))).
+    { eapply eff_trans; [|eapply hmvs_eff; apply (hmvs_ftail_rest _ dec_field enc_set_max cfg false c3 s3)].
+      - apply eff_quiet; reflexivity.
+      - exists s. unfold c3. sc_cbn. cbn [s3 set_hdr st_id]. rewrite Es. exact SS.
+      - exact WC.
+      - intro Ec. discriminate Ec.
+      - intros code0 Ec. discriminate Ec. }
+    revert EF. unfold ftail_rest. cbn [write_error].
     set (s5 := set_state (set_state (set_weReset s3) SClosed) SClosed).
     set (c4 := write_reset c3 (st_id s3) code).
     rewrite (after_frame_closed c4 s5 fr wc NR eq_refl) by exact R0. cbv zeta.
-    set (cc := close_stream (put c4 s5) s5).
+    set (cc := close_stream (put c4 s5) s5). intro EF.
     exists (fs ++ (k, v) :: fs2), n', carry'.
     assert (DC : sc_dec cc = d') by (unfold cc, c4, c3; sc_rw; reflexivity).
     assert (HC : HG cc (next_cur fr) n' carry').
@@ -336,8 +353,229 @@ Proof.
         replace (st_id s =? sf_sid fr) with true in CD by lia. cbn [negb] in CD. injection CD as E1 E2 E3.
         unfold carry_at, cc. rewrite E1, E2, E3. unfold c4, c3. sc_rw. sc_cbn. rewrite Es, N.eqb_refl. reflexivity. }
     destruct (wc && can_close_after_goaway cc)%bool.
-    + split; [rewrite sc_dec_brk, DC; exact R | intro Hd'; discriminate Hd'].
-    + split; [cbn [cont fst]; rewrite DC; exact R | intros _; exact HC].
+    + split; [rewrite sc_dec_brk, DC; exact R | split; [exact EF | intro Hd'; discriminate Hd']].
+    + split; [cbn [cont fst]; rewrite DC; exact R | split; [exact EF | intros _; exact HC]].
+Qed.
+
+(* ---------- the HEADERS prelude, then the frame ---------- *)
+Lemma sc_sl_done_implicit_close fuel : forall c sid, sc_sl_done (implicit_close fuel c sid) = sc_sl_done c.
+Proof.
+  induction fuel as [|fuel IH]; intros c sid; cbn [implicit_close]; [reflexivity|].
+  destruct (sc_strms c) as [|n t]; [reflexivity|]. destruct (_ && _ && _)%bool; [|reflexivity].
+  rewrite IH. sc_rw. reflexivity.
+Qed.
+
+Lemma fwork_hdr c1 s fr wc :
+  is_hdr_kind (sf_kind fr) = true -> st_id s = sf_sid fr ->
+  HInv (eq (sf_sid fr)) c1 -> strms_search (sc_strms c1) (sf_sid fr) = Some s ->
+  sc_sl_done c1 = false -> sc_wl_dead c1 = false -> (wc = true -> sc_closing c1 = true) ->
+  (is_cont fr = false -> forall p, get_previous_headers (sc_strms c1) = Some p -> st_headersFinished p = true) ->
+  (gcount (sc_out (fst (fwork dec_field cfg c1 s fr wc))) <= gcount (sc_out c1))%nat ->
+  hdr_post c1 (hn0 s fr) (hb0 s fr) fr (fst (fwork dec_field cfg c1 s fr wc)).
+Proof.
+  intros HK Es H SS Hd W WC GP G. unfold fwork in *.
+  destruct (fkind_eqb (sf_kind fr) KHeaders) eqn:KH.
+  - assert (NC : is_cont fr = false) by (unfold is_cont; destruct (sf_kind fr); try discriminate KH; reflexivity).
+    assert (IC : forall pre2 : (sconn * bool) + sconn,
+               pre2 = inr (implicit_close (S (length (sc_strms c1))) c1 (st_id s)) ->
+               (gcount (sc_out (fst (match pre2 with inl r => r | inr c2 => ftail dec_field cfg c2 s fr wc end))) <= gcount (sc_out c1))%nat ->
+               hdr_post c1 (hn0 s fr) (hb0 s fr) fr
+                        (fst (match pre2 with inl r => r | inr c2 => ftail dec_field cfg c2 s fr wc end))).
+    { intros pre2 -> G2.
+      destruct (hmvs_implicit_close _ dec_field enc_set_max true (S (length (sc_strms c1))) c1 (st_id s)) as (M & SR & CL).
+      set (c2 := implicit_close (S (length (sc_strms c1))) c1 (st_id s)) in *.
+      assert (Hd2 : sc_sl_done c2 = false) by (unfold c2; rewrite sc_sl_done_implicit_close; exact Hd).
+      pose proof (hmvs_base _ _ _ _ M) as (OX & W2 & _). apply oext_gcount in OX.
+      apply (hdr_post_pre c1 c2); [eapply hmvs_eff; exact M | eapply hmvs_dec; exact M|]. apply ftail_hdr.
+      - exact HK.
+      - exact Es.
+      - eapply hmvs_HInv; [exact M | exact H | exact Hd2].
+      - rewrite SR by lia. exact SS.
+      - congruence.
+      - rewrite CL. exact WC.
+      - lia. }
+    destruct (get_previous_headers (sc_strms c1)) as [p|] eqn:GPE;
+      [|exact (IC (inr (implicit_close (S (length (sc_strms c1))) c1 (st_id s))) eq_refl G)].
+    rewrite (GP NC p eq_refl) in *. cbn [negb] in *.
+    exact (IC (inr (implicit_close (S (length (sc_strms c1))) c1 (st_id s))) eq_refl G).
+  - apply ftail_hdr; assumption.
+Qed.
+
+(* ---------- sl_frame ---------- *)
+Lemma get_previous_headers_In l p : get_previous_headers l = Some p -> In p l.
+Proof.
+  unfold get_previous_headers. intro H.
+  destruct (filter (fun s => fkind_eqb (st_orig s) KHeaders) (rev l)) as [|a [|b t]] eqn:E; try discriminate.
+  inversion H; subst. apply in_rev. assert (I : In p (filter (fun s => fkind_eqb (st_orig s) KHeaders) (rev l))) by (rewrite E; right; left; reflexivity).
+  apply filter_In in I. tauto.
+Qed.
+
+Lemma get_previous_headers_new l s p : st_orig s = KHeaders -> get_previous_headers (l ++ [s]) = Some p -> In p l.
+Proof.
+  unfold get_previous_headers. intros O H. rewrite rev_app_distr in H. cbn [rev app filter] in H. rewrite O in H. cbn [fkind_eqb] in H.
+  destruct (filter (fun s => fkind_eqb (st_orig s) KHeaders) (rev l)) as [|b t] eqn:E; try discriminate.
+  inversion H; subst. apply in_rev. assert (I : In p (filter (fun s => fkind_eqb (st_orig s) KHeaders) (rev l))) by (rewrite E; left; reflexivity).
+  apply filter_In in I. tauto.
+Qed.
+
+Lemma in_ring_In c id : in_ring c id = true -> exists e, In e (sc_ring c) /\ fst e = id.
+Proof.
+  unfold in_ring. intro H. apply existsb_exists in H. destruct H as (e & I & E). exists e. split; [exact I | lia].
+Qed.
+
+Lemma HInv_allhf idp idp' c : HInv idp c -> (forall s, In s (sc_strms c) -> st_headersFinished s = true) -> HInv idp' c.
+Proof.
+  intros [] HF. constructor; auto. rewrite Forall_forall in *. intros s I. eapply P_weaken; eauto.
+Qed.
+
+Lemma search_none_notin l id : strms_search l id = None -> ~ In id (map st_id l).
+Proof.
+  intros H I. apply in_map_iff in I. destruct I as (s & E & Is). eapply strms_search_None; eassumption.
+Qed.
+
+Lemma P_new id w k t (idp : N -> Prop) : idp id -> P idp (set_orig_started (new_stream id w) k t).
+Proof. intro I. unfold P. cbn. repeat split; try congruence; auto. Qed.
+
+Theorem sl_frame_hdr c fr cur n carry :
+  is_hdr_frame fr = true -> sc_sl_done c = false -> sc_wl_dead c = false -> HG c cur n carry ->
+  (is_cont fr = true -> cur = sf_sid fr) -> (is_cont fr = false -> cur = 0) ->
+  (gcount (sc_out (fst (sl_frame dec_field enc_set_max cfg c fr))) <= gcount (sc_out c))%nat ->
+  hdr_post c (if is_cont fr then n else 0) ((if is_cont fr then carry else []) ++ sf_payload fr) fr
+           (fst (sl_frame dec_field enc_set_max cfg c fr)).
+Proof.
+  intros HF Hd W [H CA] KC KH G. unfold is_hdr_frame in HF. apply andb_prop in HF. destruct HF as [Z0 HK].
+  apply negb_true_iff in Z0. assert (NZ : sf_sid fr <> 0) by lia.
+  unfold sl_frame in *. rewrite Z0 in *.
+  pose proof H as [ND FP IDS LAST DISC RING].
+  assert (GA : forall sid code, (gcount (sc_out (write_goaway c sid code)) <= gcount (sc_out c))%nat -> False).
+  { intros sid code L. pose proof (gcount_write_goaway _ c sid code W). lia. }
+  destruct (is_cont fr) eqn:IC.
+  - (* CONTINUATION: the block in progress is this stream's *)
+    specialize (KC eq_refl). subst cur. specialize (CA NZ).
+    assert (KCe : fkind_eqb (sf_kind fr) KCont = true) by exact IC.
+    rewrite KCe in *. cbn [andb] in *. unfold carry_at in CA.
+    destruct (sc_discardID c =? sf_sid fr) eqn:ED.
+    + (* the block is being thrown away *)
+      replace (sf_sid fr =? sc_discardID c) with true in * by lia.
+      replace (negb (sc_discardID c =? 0)) with true in * by (symmetry; apply negb_true_iff; lia). cbn [andb] in *.
+      inversion CA; subst n carry.
+      assert (D0 : sc_discardID c <> 0) by lia. destruct (DISC D0) as [NI LE].
+      replace (sc_discardID c) with (sf_sid fr) in NI, LE by lia.
+      assert (AH : forall s, In s (sc_strms c) -> st_headersFinished s = true).
+      { intros s Is. rewrite Forall_forall in FP. destruct (FP s Is) as (_ & _ & _ & P4 & _).
+        destruct (st_headersFinished s); [reflexivity|]. exfalso. apply NI. rewrite (P4 eq_refl). apply in_map. exact Is. }
+      pose proof (discard_path (eq (sf_sid fr)) c fr H AH NI LE NZ W G) as DP. rewrite IC in DP. exact DP.
+    + (* the block belongs to a stream of the table *)
+      replace (sf_sid fr =? sc_discardID c) with false in * by lia. rewrite andb_false_r in *.
+      destruct (strms_search (sc_strms c) (sf_sid fr)) as [s|] eqn:SS; [|discriminate].
+      destruct (st_headersFinished s) eqn:Hs; [discriminate|]. inversion CA; subst n carry.
+      destruct (strms_search_In _ _ _ SS) as [Is Es].
+      replace (sf_sid fr <=? sc_lastID c) with true in * by (symmetry; destruct (IDS s Is); lia).
+      cbv zeta in *.
+      change (hdr_post c (st_blockFields s) (st_prev s ++ sf_payload fr) fr (fst (fwork dec_field cfg c s fr (sc_closing c)))).
+      change (gcount (sc_out (fst (fwork dec_field cfg c s fr (sc_closing c)))) <= gcount (sc_out c))%nat in G.
+      pose proof (fwork_hdr c s fr (sc_closing c) HK Es H SS Hd W (fun x => x)) as FW.
+      unfold hn0, hb0 in FW. rewrite IC in FW. apply FW; [intro; discriminate | exact G].
+  - (* HEADERS: no block is in progress *)
+    specialize (KH eq_refl). subst cur.
+    assert (KCe : fkind_eqb (sf_kind fr) KCont = false) by exact IC.
+    assert (KHe : fkind_eqb (sf_kind fr) KHeaders = true).
+    { unfold is_hdr_kind in HK. rewrite KCe in HK. rewrite orb_false_r in HK. exact HK. }
+    assert (KRe : fkind_eqb (sf_kind fr) KRst = false) by (apply hdr_kind_not_rst; exact HK).
+    assert (KPe : fkind_eqb (sf_kind fr) KPriority = false) by (destruct (sf_kind fr); try discriminate KHe; reflexivity).
+    assert (AH : forall s, In s (sc_strms c) -> st_headersFinished s = true).
+    { apply all_hf_of_P0; [intros s Is; apply IDS; exact Is | exact FP]. }
+    rewrite KCe in *. cbn [andb] in *. cbv zeta in *.
+    change (match ?pre with inl r => r | inr (c1, s) => _ end) with
+      (match pre with inl r => r | inr (c1, s) => fwork dec_field cfg c1 s fr (sc_closing c) end) in G |- *.
+    destruct (if sf_sid fr <=? sc_lastID c then strms_search (sc_strms c) (sf_sid fr) else None) as [s|] eqn:Found.
+    + (* trailers, or a second HEADERS, on a stream of the table *)
+      assert (SS : strms_search (sc_strms c) (sf_sid fr) = Some s) by (destruct (_ <=? _); [exact Found | discriminate]).
+      destruct (strms_search_In _ _ _ SS) as [Is Es].
+      pose proof (fwork_hdr c s fr (sc_closing c) HK Es (HInv_allhf _ _ _ H AH) SS Hd W (fun x => x)) as FW.
+      unfold hn0, hb0 in FW. rewrite IC in FW.
+      assert (PV : st_prev s = []).
+      { rewrite Forall_forall in FP. destruct (FP s Is) as (P1 & _). apply P1. apply AH. exact Is. }
+      rewrite PV in FW. apply FW; [|exact G].
+      intros _ p GP. apply AH. eapply get_previous_headers_In. exact GP.
+    + assert (NF : strms_search (sc_strms c) (sf_sid fr) = None).
+      { destruct (sf_sid fr <=? sc_lastID c) eqn:Le; [exact Found|].
+        destruct (strms_search (sc_strms c) (sf_sid fr)) as [s|] eqn:SS; [|reflexivity].
+        destruct (strms_search_In _ _ _ SS) as [Is Es]. destruct (IDS s Is). lia. }
+      pose proof (search_none_notin _ _ NF) as NI.
+      rewrite KRe, KPe, KHe in *. cbn [andb] in *.
+      destruct (in_ring c (sf_sid fr)) eqn:IR.
+      { (* a stream that was closed before *)
+        assert (KHv : sf_kind fr = KHeaders) by (destruct (sf_kind fr); try discriminate KHe; reflexivity).
+        rewrite KHv in *.
+        destruct (match ring_find c (sf_sid fr) with Some b => b | None => false end).
+        - destruct (in_ring_In _ _ IR) as (e & Ie & Ee). pose proof (RING e Ie) as LE. rewrite Ee in LE.
+          pose proof (discard_path (eq 0) c fr H AH NI LE NZ W G) as DP. rewrite IC in DP. exact DP.
+        - exfalso. cbn [cont fst] in G. eapply GA. exact G. }
+      destruct (sf_sid fr <=? sc_highestID c) eqn:HI; [exfalso; cbn [cont fst] in G; eapply GA; exact G|].
+      set (ch := upd_highestID c (sf_sid fr)) in *.
+      assert (Hh : HInv (eq 0) ch).
+      { eapply (hmv_HInv _ (eq 0) c ch); [apply hm_highest; lia | exact H | exact Hd]. }
+      (* the refusal *)
+      assert (REF : (gcount (sc_out (fst (discard_or_break (discard_header_block dec_field cfg
+                        (mark_closed (write_reset ch (sf_sid fr) c_RefusedStreamError) (sf_sid fr) true) fr)))) <= gcount (sc_out c))%nat ->
+                    hdr_post c 0 ([] ++ sf_payload fr) fr
+                      (fst (discard_or_break (discard_header_block dec_field cfg
+                        (mark_closed (write_reset ch (sf_sid fr) c_RefusedStreamError) (sf_sid fr) true) fr)))).
+      { intro G2. set (cr := mark_closed (write_reset ch (sf_sid fr) c_RefusedStreamError) (sf_sid fr) true) in *.
+        assert (Mr : hmvs true ch cr).
+        { eapply hmvs_trans; [apply hmvs_same, (hsame_write_reset _ ch (sf_sid fr) c_RefusedStreamError)|].
+          apply hmvs_one, hm_mark. sc_rw. unfold ch. sc_cbn. lia. }
+        assert (Hr : HInv (eq 0) cr) by (eapply hmvs_HInv; [exact Mr | exact Hh | unfold cr; sc_rw; exact Hd]).
+        assert (Or : sc_out cr = ORst (sf_sid fr) c_RefusedStreamError :: sc_out c).
+        { unfold cr. sc_rw. rewrite sc_out_write_reset, sc_out_emit. unfold ch. sc_cbn. rewrite W, Hd. reflexivity. }
+        assert (DP := discard_path (eq 0) cr fr Hr).
+        rewrite IC in DP.
+        apply (hdr_post_pre c cr).
+        { eapply eff_trans; [eapply (hmv_eff _ true c ch); apply hm_highest; lia | eapply hmvs_eff; exact Mr]. }
+        { unfold cr, ch. sc_rw. reflexivity. }
+        apply DP.
+        - unfold cr, ch. sc_rw. sc_cbn. exact AH.
+        - unfold cr, ch. sc_rw. sc_cbn. exact NI.
+        - unfold cr, ch. sc_rw. sc_cbn. lia.
+        - exact NZ.
+        - unfold cr, ch. sc_rw. sc_cbn. exact W.
+        - rewrite Or, gcount_cons. cbn [conn_err_out]. lia. }
+      destruct ((cf_maxStreams cfg <=? sc_open ch)%Z || sc_closing c)%bool; [apply REF; exact G|].
+      destruct (sf_sid fr <? sc_lastID ch) eqn:LT.
+      { exfalso. cbn [cont fst] in G. pose proof (gcount_write_goaway _ ch (sf_sid fr) c_ProtocolError W) as GG.
+        replace (sc_out ch) with (sc_out c) in GG by reflexivity. lia. }
+      destruct (sc_closing ch) eqn:CL; [apply REF; exact G|].
+      (* a new stream *)
+      set (s := set_orig_started (new_stream (sf_sid fr) (sc_initWin (upd_lastID ch (sf_sid fr)))) (sf_kind fr)
+                                 (sc_now (upd_lastID ch (sf_sid fr)))) in *.
+      set (c3 := upd_open _ _) in *.
+      assert (KHv : st_orig s = KHeaders) by (unfold s; cbn; destruct (sf_kind fr); try discriminate KHe; reflexivity).
+      assert (S3 : strms_search (sc_strms c3) (sf_sid fr) = Some s).
+      { unfold c3. sc_cbn. rewrite strms_search_app_None by exact NF. cbn [strms_search s set_orig_started new_stream st_id].
+        rewrite N.eqb_refl. reflexivity. }
+      assert (H3 : HInv (eq (sf_sid fr)) c3).
+      { unfold c3, ch. constructor; sc_cbn.
+        - rewrite map_app. cbn [map]. apply NoDup_app_one_iso; [exact ND | exact NI].
+        - apply Forall_app. split.
+          + rewrite Forall_forall in *. intros y Iy. eapply P_weaken; [apply FP; exact Iy | apply AH; exact Iy].
+          + constructor; [|constructor]. apply P_new. reflexivity.
+        - intros y Iy. apply in_app_or in Iy. destruct Iy as [Iy|[<-|[]]].
+          + destruct (IDS y Iy). unfold ch in LT. sc_cbn_in LT. split; [lia | assumption].
+          + cbn. split; [lia | exact NZ].
+        - lia.
+        - intro D0. destruct (DISC D0) as [NId LEd]. split; [|lia]. rewrite map_app. cbn [map]. intro I.
+          apply in_app_or in I. destruct I as [I|[I|[]]]; [tauto|]. cbn in I. lia.
+        - intros e Ie. specialize (RING e Ie). lia. }
+      pose proof (fwork_hdr c3 s fr (sc_closing c) HK eq_refl H3 S3 Hd W) as FW.
+      unfold hn0, hb0 in FW. rewrite IC in FW. cbn [s set_orig_started new_stream st_prev] in FW.
+      apply (hdr_post_pre c c3); [apply eff_quiet; reflexivity | reflexivity|].
+      apply FW.
+      * intro Wc. unfold ch in CL. sc_cbn_in CL. congruence.
+      * intros _ p GP. apply AH. unfold c3 in GP. sc_cbn_in GP. eapply get_previous_headers_new; [exact KHv | exact GP].
+      * replace (sc_out c3) with (sc_out c) by reflexivity. exact G.
 Qed.
 
 End HdrStep.
+
+Arguments HG {hstate}. Arguments hdr_post {hstate}.
